@@ -51,7 +51,7 @@ def generate(chk, maxlen, scripts=None):
     return r.emits()
 
 
-def execute(script, outlen_mode, as_path, tmp, tag):
+def execute(script, outlen_mode, as_path, tmp, tag, check_first=0):
     """returns dict of observations"""
     import scared
     n, L = len(script), 5
@@ -77,6 +77,13 @@ def execute(script, outlen_mode, as_path, tmp, tag):
     fn = os.path.join(tmp, f'out_{tag}.ets')
     s = scared.Synchronizer(ths, Path(fn) if as_path else fn, f)
     obs = {'error': None}
+    if check_first:
+        np.random.seed(len(script) * 7 + check_first)
+        try:
+            s.check(nb_traces=check_first)
+        except Exception as ex:           # noqa
+            obs['check_error'] = repr(ex)[:100]
+        del calls[:]
     with warnings.catch_warnings(record=True) as wl:
         warnings.simplefilter('always')
         try:
@@ -164,16 +171,16 @@ def run(chk):
                 continue
             variants = [('same', False)] if (q and j % 4) else [('same', False), ('longer', True), ('one', j % 2 == 0)]
             for mode, as_path in variants:
-                obs = execute(script, mode, as_path, tmp, f'{j}_{mode}')
+                obs = execute(script, mode, as_path, tmp, f'{j}_{mode}', check_first=(2 if e.get('checked') else 0))
                 bad = judge(e, obs)
                 mixed = ('A' in script and any(x != 'A' for x in script)) or 'A' not in script
-                chk.count((tuple(script), mode, as_path), nontrivial=mixed)
+                chk.count((tuple(script), mode, as_path, bool(e.get('checked'))), nontrivial=mixed)
                 chk.traces_validated += 1
                 if obs['warnings'] != e['warnings']:
                     chk.drift += 1
                 if bad:
                     pat = 'all-rejected' if 'A' not in script else 'mixed'
-                    chk.violation(f'{bad.split(" (")[0]}:{pat}', {'property': 'C20', 'script': script, 'returned_length': mode, 'output_as_path': as_path, 'specification': e,
+                    chk.violation(f'{bad.split(" (")[0]}:{pat}' + (':after check()' if e.get('checked') else ''), {'property': 'C20', 'script': script, 'check_first': 2 if e.get('checked') else 0, 'returned_length': mode, 'output_as_path': as_path, 'specification': e,
                                                                  'observed': {k: v for k, v in obs.items() if not k.startswith('_')}, 'clause': bad},
                                   f'script {"".join(script)} ({mode}, {"Path" if as_path else "str"}): {bad}')
             for fn in os.listdir(tmp):
@@ -189,7 +196,7 @@ def replay(chk, path):
     rp = json.load(open(path))
     tmp = tempfile.mkdtemp(prefix='verif_c20_')
     try:
-        obs = execute(rp['script'], rp['returned_length'], rp['output_as_path'], tmp, 'replay')
+        obs = execute(rp['script'], rp['returned_length'], rp['output_as_path'], tmp, 'replay', check_first=rp.get('check_first', 0))
         bad = judge(rp['specification'], obs)
     finally:
         shutil.rmtree(tmp, ignore_errors=True)
